@@ -25,10 +25,11 @@ ASSUMPTIONS = [
     'no control requests are issued (quantifier of C18)',
 ]
 BUDGET = {
-    'quick': {'enum': ['pairs', 'nested', 'ctl'], 'hyp': 2000, 'shards': 8},
-    'thorough': {'enum': ['pairs', 'triples', 'nested', 'ctl'], 'hyp': 80000, 'shards': 16},
+    'quick': {'enum': ['pairs', 'nested', 'ctl', 'hookctl'], 'hyp': 2000, 'shards': 8},
+    'thorough': {'enum': ['pairs', 'triples', 'nested', 'ctl', 'hookctl'], 'hyp': 80000, 'shards': 16},
 }
 S = gen.S
+OWN_HOOKS = ('on_run', 'on_running', 'on_wait', 'on_waiting', 'on_exit_running', 'on_exit_waiting', 'on_output_emitted', 'on_entered', 'on_entering', 'on_exiting', 'on_finish', 'on_finished')
 NESTED_MODE = False
 CONSTRUCTION = {('on_entering', 1), ('on_create', 1), ('on_entered', 1)}
 
@@ -51,6 +52,8 @@ SHAPES = {
 }
 CHILD_W = {'steps': [S([['status', 'cw']], ['wait', 1, None, None]), S([['yield']], ['value', 8], True)]}
 AWAITER = {'steps': [S([['yield'], ['await_child', CHILD_W, 70], ['out', 'after', 1], ['yield']], ['continue', 1, [], {}], True), S([['soon', 'ok', 'ca']], ['value', 9])]}
+# a coroutine callback scheduled by the last step (it runs when the process has finished and is closed) steps a helper process
+LATE_HELPER = {'steps': [S([['yield']], ['continue', 1, [], {}], True), S([['soon', 'await_child', 'late', {'steps': [S([['yield'], ['out', 'x', 1]], ['value', 1], True)]}, 80], ['soon', 'ok', 'c9']], ['value', 10])]}
 SELF_PAUSER = {'steps': [S([['call', 'pause', 'sp']], ['continue', 1, [], {}]), S([['yield'], ['call', 'pause', 'sp2'], ['yield']], ['wait', 2, None, None], True), S([], ['value', 3])]}
 NESTER = {'steps': [S([['nested', CHILD, 60], ['out', 'after', 1], ['nested', SHAPES['sync'], 61]], ['continue', 1, [], {}]), S([['yield']], ['value', 6], True)]}
 NESTER_ASYNC_PARENT = {'steps': [S([['yield']], ['continue', 1, [], {}], True), S([['nested', SHAPES['y3'], 62]], ['value', 7])]}
@@ -70,10 +73,29 @@ def enumerate_cases(tier, scope):
                     yield {'procs': procs, 'start_gaps': [0, gap][: len(procs)], 'nested': False, 'ctl': ctl}
         for other in names + [None]:
             for gap in (0, 1, 2):
+                procs = [{'program': LATE_HELPER, 'pid': 1}]
+                if other:
+                    procs.append({'program': SHAPES[other], 'pid': 2})
+                yield {'procs': procs, 'start_gaps': [0, gap][: len(procs)], 'nested': False}
+        for other in names + [None]:
+            for gap in (0, 1, 2):
                 procs = [{'program': SELF_PAUSER, 'pid': 1}]
                 if other:
                     procs.append({'program': SHAPES[other], 'pid': 2})
                 yield {'procs': procs, 'start_gaps': [0, gap][: len(procs)], 'nested': False}
+        return
+    if scope == 'hookctl':
+        # a kill or pause requested by one of the process's own hooks during a transition: the hooks that carry the
+        # request out (on_kill, on_killed, on_pausing, on_paused, ...) run in the process's stepping as well
+        for name in ('y3', 'sync', 'gate', 'launcher'):
+            for hook in ('on_run', 'on_running', 'on_wait', 'on_waiting', 'on_exit_running', 'on_output_emitted', 'on_entered'):
+                for occ in (1, 2):
+                    for do in (['kill', 'hk'], ['pause', 'hp']):
+                        for other in (None, 'y3'):
+                            procs = [{'program': SHAPES[name], 'pid': 1}]
+                            if other:
+                                procs.append({'program': SHAPES[other], 'pid': 2})
+                            yield {'procs': procs, 'start_gaps': [0, 1][: len(procs)], 'nested': False, 'hook_plans': {'1': [{'hook': hook, 'occ': occ, 'pos': 'post', 'do': do}]}}
         return
     if scope in ('pairs', 'triples'):
         k = 2 if scope == 'pairs' else 3
@@ -145,7 +167,11 @@ def _cases(draw, tier):
     ctl = []
     for _ in range(draw(st.integers(0, 3))):
         ctl.append([draw(st.integers(0, 12)), draw(st.sampled_from(['any-child', 'any-child', 'any'])), draw(st.sampled_from(['pause', 'play', 'play', 'kill']))])
-    return {'procs': procs, 'start_gaps': gaps, 'nested': nested, 'ctl': sorted(ctl)}
+    case = {'procs': procs, 'start_gaps': gaps, 'nested': nested, 'ctl': sorted(ctl)}
+    if draw(st.integers(0, 2)) == 0:
+        # only from hooks that the process's own stepping fires (on_playing & co. run in the code of whoever plays)
+        case['hook_plans'] = {str(draw(st.integers(1, n))): [h for h in draw(gen.hook_plans(['kill', 'pause'], max_plans=2)) if h['do'][0] != 'fail' and h['hook'] in OWN_HOOKS]}
+    return case
 
 
 def strategy(tier):
@@ -216,6 +242,8 @@ def execute(case):
                     with loop.as_running():
                         proc = make_class(spec['program'])(pid=spec['pid'], loop=loop)
                         procs.append(proc)
+                        w.extra.setdefault('constructed', set()).add(proc.pid)
+                        w.hook_plan[proc.pid] = list((case.get('hook_plans') or {}).get(str(proc.pid), []))
                         loop.create_task(proc.step_until_terminated())
                     started += 1
 
@@ -312,6 +340,8 @@ def execute(case):
             classes.add('nested-execute')
         if sites.get('cb'):
             classes.add('callbacks')
+        if any(r['who'].startswith('hook:') for r in w.futs):
+            classes.add('request-from-own-hook')
         nontrivial = bool(interleaved or n_children or sites.get('cb'))
         history = {'sites': sites, 'procs': len(case['procs']), 'children': n_children, 'ticks': tick, 'nested_mode': NESTED_MODE}
     finally:
